@@ -2,6 +2,7 @@
 From Coq Require Import ZArith NArith List Bool Reals Floats.
 From PV Require Import Num NumR model.Optimiser model.OptSpec proofs.OptStruct proofs.OptLoop proofs.FloatFacts proofs.RealFacts.
 From PV Require Import model.Cli gen.GenCli proofs.CliFacts.
+From PV Require Import gen.GenFns proofs.SourceFacts.
 
 Theorem C19_ratio_le_one :
   forall (NN : Num) (fexp : carrier NN -> carrier NN) (score : N -> list (carrier NN) -> option
@@ -57,4 +58,22 @@ Theorem C19_cli_driver_translated :
   gen_cli_problem = String.EmptyString.
 Proof. exact cli_translated. Qed.
 Print Assumptions C19_cli_driver_translated.
+
+
+Theorem C19_ratio_update_is_source :
+  forall (NN : Num) (r : carrier NN) (inner_ rej : N), gen_ratio_update NN r inner_ rej = (if
+    (thresh NN <? r)%num then nmin (r * (ofN NN inner_ / (ofN NN rej + n1)))%num n1 else r).
+Proof. exact ratio_update_is_source. Qed.
+Print Assumptions C19_ratio_update_is_source.
+
+Theorem C19_sample_is_source :
+  forall (NN : Num) (h : handle NN) (v step g : carrier NN), gen_sample NN (h_min NN h) (h_max
+    NN h) v step g = sample NN h v step g.
+Proof. exact sample_is_source. Qed.
+Print Assumptions C19_sample_is_source.
+
+Theorem C19_clamp_is_source :
+  forall (NN : Num) (lo hi x : carrier NN), gen_clamp NN lo hi x = nclamp lo hi x.
+Proof. exact clamp_is_source. Qed.
+Print Assumptions C19_clamp_is_source.
 
